@@ -475,3 +475,31 @@ Proof.
   subst chosen. destruct (match_select C holds arms) as [v|]; cbn [option_map]; [|repeat split; reflexivity].
   rewrite gen_view_renders, gen_string_renders. repeat split; reflexivity.
 Qed.
+
+(** ** plurals: both back-ends select with the key's own rule type, hence the same form, rendered alike *)
+Lemma plural_select_map : forall {F R V W} (form_eqb : F -> F -> bool) (category : R -> F) (g : V -> W) rule
+  (forms : list (F * V)) (other : V),
+  plural_select F R form_eqb category rule (map (fun a => (fst a, g (snd a))) forms) (g other)
+  = g (plural_select F R form_eqb category rule forms other).
+Proof.
+  intros F R V W form_eqb category g rule forms other. unfold plural_select.
+  induction forms as [|[f v] r IH]; [reflexivity|]. cbn [map find fst snd].
+  destruct (form_eqb f (category rule)); [reflexivity|exact IH].
+Qed.
+
+Lemma plurals_agree : forall {F R} (form_eqb : F -> F -> bool) (category : R -> F) e (rule : R) (forms : list (F * pv)) (other : pv),
+  let chosen := plural_select F R form_eqb category rule forms other in
+  eval_view e (plural_select F R form_eqb category rule (forms_view forms) (gen_view other)) = render e (pieces chosen)
+  /\ eval_string e (plural_select F R form_eqb category rule (forms_string forms) (gen_string other)) = render e (pieces chosen)
+  /\ eval_display e (plural_select F R form_eqb category rule (forms_string forms) (gen_display other)) = render e (pieces chosen).
+Proof.
+  intros F R form_eqb category e rule forms other chosen. unfold forms_view, forms_string, gen_display, eval_display.
+  rewrite (plural_select_map form_eqb category gen_view), (plural_select_map form_eqb category gen_string).
+  rewrite gen_view_renders, gen_string_renders. repeat split; reflexivity.
+Qed.
+
+(** a back-end that selected with another rule type shows another form exactly when the categories differ *)
+Lemma plural_select_rule : forall {F R V} (form_eqb : F -> F -> bool) (category : R -> F) (r1 r2 : R) (forms : list (F * V)) other,
+  category r1 = category r2 ->
+  plural_select F R form_eqb category r1 forms other = plural_select F R form_eqb category r2 forms other.
+Proof. intros F R V form_eqb category r1 r2 forms other H. unfold plural_select. rewrite H. reflexivity. Qed.
